@@ -734,18 +734,27 @@ structure GoodInner (e : Env K n p m) : Prop where
   fac : ∀ (b : Bool) (s : NumState K n p m) (i : Info K), ConvInv e s i → ((realOps e).factor b ((realOps e).rescale s i)).2 = true
   exact : ∀ (kb : KBlocks K n p m) (slv : SolveFn K n p m), (∀ a b : Fin n, kb.xx[a][b] = kb.xx[b][a]) → e.inner kb = some slv →
     InnerExact e.be kb slv
+  facCoh : ∀ k : KKT K n p m, Coherent e.be e.data k → 0 < k.rho → 0 < k.delta →
+    (∀ t : Fin m, 0 < k.s[t] * k.zinv[t] + k.delta) →
+    (∀ a : Fin n, e.data.lb.act a → 0 < k.zinv_lb[a] * k.s_lb[a] + k.delta) →
+    (∀ a : Fin n, e.data.ub.act a → 0 < k.zinv_ub[a] * k.s_ub[a] + k.delta) →
+    (KKT.regFactor e.be e.st.kkt e.data k false e.inner).factOk = true
 
 /-- every sparse formulation with any fill-reducing permutation qualifies -/
 theorem goodInner_sparse (e : Env K n p m) (perm : Vector (Fin (n + p + m)) (n + p + m)) (hperm : IsPerm perm)
     (hsp : e.be.isDense = false) (hin : e.inner = innerLDLT e.be perm) (hP : ∀ x : Vec K n, 0 ≤ quad e.data.Psym x) : GoodInner e where
   fac := factor_after_rescale e perm hperm hsp hin hP
   exact := fun kb slv hxx h => innerLDLT_exact e.be perm hperm kb hxx slv (by rw [← hin]; exact h)
+  facCoh := fun k hc hρ hδ hw hl hu => by rw [hin]; exact sparse_factorisation_never_fails e.be e.st.kkt e.data k perm hperm hc hP hρ hδ hw hl hu
 
 /-- so does the dense back end (Cholesky of the fully reduced block) given an exact square root -/
 theorem goodInner_dense (e : Env K n p m) (sqrtF : K → K) (hsq : ExactSqrt sqrtF)
     (hd : e.be = .dense) (hin : e.inner = innerLLT sqrtF) (hP : ∀ x : Vec K n, 0 ≤ quad e.data.Psym x) : GoodInner e where
   fac := dense_factor_after_rescale e sqrtF hsq hd hin hP
   exact := fun kb slv hxx h => by rw [hd]; exact innerLLT_exact sqrtF hsq kb hxx slv (by rw [← hin]; exact h)
+  facCoh := fun k hc hρ hδ hw hl hu => by
+    rw [hin]; rw [hd] at hc ⊢
+    exact dense_factorisation_never_fails sqrtF hsq e.st.kkt e.data k hc hP hρ hδ hw hl hu
 
 /-- after `update_scalings` at an interior iterate with positive `ρ, δ`, a good back end's plain factorisation succeeds and the
     state it leaves is `Factored` -/
@@ -776,6 +785,24 @@ theorem factored_after_rescale (e : Env K n p m) (hg : GoodInner e) (s : NumStat
   · intro a ha; show 0 < k'.zinv_lb[a]; rw [f7, C13.headUpd_get]; simp only [ha, if_true]; exact one_div_pos.mpr (hcone.z_lb a ha)
   · intro a ha; show 0 < k'.s_ub[a]; rw [f6, C13.headUpd_get]; simp only [ha, if_true]; exact hcone.s_ub a ha
   · intro a ha; show 0 < k'.zinv_ub[a]; rw [f8, C13.headUpd_get]; simp only [ha, if_true]; exact one_div_pos.mpr (hcone.z_ub a ha)
+
+/-- a coherent KKT object with positive regularisation and positive scalings factorises, and the result is `Factored` -/
+theorem factored_of_coherent (e : Env K n p m) (hg : GoodInner e) (k : KKT K n p m) (hcoh : Coherent e.be e.data k)
+    (hρ : 0 < k.rho) (hδ : 0 < k.delta) (hs : ∀ t : Fin m, 0 < k.s[t]) (hz : ∀ t : Fin m, 0 < k.zinv[t])
+    (hsl : ∀ a : Fin n, e.data.lb.act a → 0 < k.s_lb[a]) (hzl : ∀ a : Fin n, e.data.lb.act a → 0 < k.zinv_lb[a])
+    (hsu : ∀ a : Fin n, e.data.ub.act a → 0 < k.s_ub[a]) (hzu : ∀ a : Fin n, e.data.ub.act a → 0 < k.zinv_ub[a]) :
+    Factored e.be e.data (KKT.regFactor e.be e.st.kkt e.data k false e.inner) := by
+  have hok := hg.facCoh k hcoh hρ hδ (fun t => by have := mul_pos (hs t) (hz t); linarith)
+    (fun a ha => by have := mul_pos (hzl a ha) (hsl a ha); linarith) (fun a ha => by have := mul_pos (hzu a ha) (hsu a ha); linarith)
+  have hcoh' : Coherent e.be e.data (KKT.regFactor e.be e.st.kkt e.data k false e.inner) := ⟨hcoh.xx, hcoh.xy, hcoh.yy, hcoh.xz, hcoh.zz⟩
+  refine ⟨?_, hcoh', hρ, hδ, hs, hz, hsl, hzl, hsu, hzu⟩
+  cases hs' : e.inner k.k with
+  | none =>
+    have : (KKT.regFactor e.be e.st.kkt e.data k false e.inner).fsol = none := by simp [KKT.regFactor, hs']
+    simp [KKT.factOk, this] at hok
+  | some slv =>
+    have hf : (KKT.regFactor e.be e.st.kkt e.data k false e.inner).fsol = some slv := by simp [KKT.regFactor, hs']
+    exact ⟨slv, hf, hg.exact k.k slv (coherent_xx_symm e.be e.data k hcoh) hs'⟩
 
 /-- the same problem handed to another back end (formulation + inner factorisation) -/
 def withBackend (e : Env K n p m) (be2 : Backend) (in2 : Inner K n p m) : Env K n p m :=
@@ -972,6 +999,94 @@ theorem solveTyped_of_factor (cs : Consts K) (sqrtF : K → K) (s : Solver K n p
   rw [initLoopG.eq_def]
   simp only [hfa, if_true, Bool.not_true, Bool.false_eq_true, if_false]
 
+/-- the common part of the two `solve()`-level theorems: once the two first factorisations leave `Factored` KKT objects with the
+    same scalings, the initial points coincide and the main loops run in lock-step -/
+theorem solve_agree_core (cs : Consts K) (sqrtF : K → K) (s : Solver K n p m)
+    (perm1 perm2 : Vector (Fin (n + p + m)) (n + p + m)) (be2 : Backend) (kkt2 : KKT K n p m)
+    (hb1 : BackendOk sqrtF s.be perm1) (hb2 : BackendOk sqrtF be2 perm2)
+    (hv : s.st.verify = true) (hτ1 : s.st.tau < 1) (hft : 0 < s.st.regFinetuneLowerLimit) (heps : 0 ≤ cs.machEps)
+    (h15 : 1 ≤ cs.c1_5) (h05 : 0 < cs.c0_5)
+    (hP : ∀ x : Vec K n, 0 ≤ quad s.data.Psym x) (hr : s.refineOn = false)
+    (hnl : s.data.lb.cnt ≤ n) (hnu : s.data.ub.cnt ≤ n)
+    (hguard : ∀ (w0 : Work K n p m) (kkt1 : KKT K n p m) (b : Bool), m + s.data.lb.cnt + s.data.ub.cnt ≠ 0 →
+      0 < (mehrotraShift cs s.data (ipBeforeShift cs s (Solver.env cs sqrtF s perm1) w0 kkt1 b)).2.2)
+    (F1' : Factored s.be s.data ((realOps (Solver.env cs sqrtF s perm1)).factor false
+      ((solveStart cs sqrtF s perm1).1, (solveStart cs sqrtF s perm1).2.1)).1.2)
+    (F2' : Factored be2 s.data ((realOps (withBackend (Solver.env cs sqrtF s perm1) be2 (execInner sqrtF be2 perm2))).factor false
+      ((solveStart cs sqrtF s perm1).1, (solveStart cs sqrtF (retarget s be2 kkt2) perm2).2.1)).1.2)
+    (S' : SameScalings ((realOps (Solver.env cs sqrtF s perm1)).factor false
+        ((solveStart cs sqrtF s perm1).1, (solveStart cs sqrtF s perm1).2.1)).1.2
+      ((realOps (withBackend (Solver.env cs sqrtF s perm1) be2 (execInner sqrtF be2 perm2))).factor false
+        ((solveStart cs sqrtF s perm1).1, (solveStart cs sqrtF (retarget s be2 kkt2) perm2).2.1)).1.2)
+    (C1 : C13.CachesOk s.be s.data ((realOps (Solver.env cs sqrtF s perm1)).factor false
+      ((solveStart cs sqrtF s perm1).1, (solveStart cs sqrtF s perm1).2.1)).1.2)
+    (C2 : C13.CachesOk be2 s.data ((realOps (withBackend (Solver.env cs sqrtF s perm1) be2 (execInner sqrtF be2 perm2))).factor false
+      ((solveStart cs sqrtF s perm1).1, (solveStart cs sqrtF (retarget s be2 kkt2) perm2).2.1)).1.2) :
+    (solveTyped cs sqrtF (retarget s be2 kkt2) perm2).2 = (solveTyped cs sqrtF s perm1).2 ∧
+    (solveTyped cs sqrtF (retarget s be2 kkt2) perm2).1.w = (solveTyped cs sqrtF s perm1).1.w ∧
+    (solveTyped cs sqrtF (retarget s be2 kkt2) perm2).1.info = (solveTyped cs sqrtF s perm1).1.info := by
+  obtain ⟨hρ0, hδ0, hrl, hτ0⟩ := verify_facts s.st hv
+  have hE := env_retarget cs sqrtF s be2 kkt2 perm1 perm2
+  have hP' : ∀ x : Vec K n, 0 ≤ quad (Solver.env cs sqrtF s perm1).data.Psym x := hP
+  have g1 : GoodInner (Solver.env cs sqrtF s perm1) := goodInner_of _ sqrtF perm1 hb1 rfl hP'
+  have g2 : GoodInner (withBackend (Solver.env cs sqrtF s perm1) be2 (execInner sqrtF be2 perm2)) := goodInner_of _ sqrtF perm2 hb2 rfl hP'
+  have hw0 : (solveStart cs sqrtF (retarget s be2 kkt2) perm2).1 = (solveStart cs sqrtF s perm1).1 := rfl
+  have hi0 : (solveStart cs sqrtF (retarget s be2 kkt2) perm2).2.2 = (solveStart cs sqrtF s perm1).2.2 := rfl
+  have hfa1 : ((realOps (Solver.env cs sqrtF s perm1)).factor false ((solveStart cs sqrtF s perm1).1, (solveStart cs sqrtF s perm1).2.1)).2 = true := by
+    obtain ⟨slv, hf, _⟩ := F1'.slv
+    show (KKT.factOk _) = true
+    unfold KKT.factOk
+    rw [show ∀ k : KKT K n p m, k.fsol.isSome = true ↔ ∃ x, k.fsol = some x from fun k => Option.isSome_iff_exists]
+    exact ⟨slv, hf⟩
+  have hfa2 : ((realOps (withBackend (Solver.env cs sqrtF s perm1) be2 (execInner sqrtF be2 perm2))).factor false
+      ((solveStart cs sqrtF s perm1).1, (solveStart cs sqrtF (retarget s be2 kkt2) perm2).2.1)).2 = true := by
+    obtain ⟨slv, hf, _⟩ := F2'.slv
+    show (KKT.factOk _) = true
+    unfold KKT.factOk
+    rw [show ∀ k : KKT K n p m, k.fsol.isSome = true ↔ ∃ x, k.fsol = some x from fun k => Option.isSome_iff_exists]
+    exact ⟨slv, hf⟩
+  have hfa1' : ((realOps (Solver.env cs sqrtF s perm1)).factor s.refineOn ((solveStart cs sqrtF s perm1).1, (solveStart cs sqrtF s perm1).2.1)).2 = true := by
+    rw [hr]; exact hfa1
+  have hfa2' : ((realOps (Solver.env cs sqrtF (retarget s be2 kkt2) perm2)).factor (retarget s be2 kkt2).refineOn
+      ((solveStart cs sqrtF (retarget s be2 kkt2) perm2).1, (solveStart cs sqrtF (retarget s be2 kkt2) perm2).2.1)).2 = true := by
+    rw [hE]
+    have : (retarget s be2 kkt2).refineOn = false := hr
+    rw [this, hw0]; exact hfa2
+  rw [solveTyped_of_factor cs sqrtF s perm1 hv hfa1', solveTyped_of_factor cs sqrtF (retarget s be2 kkt2) perm2 hv hfa2']
+  simp only
+  rw [hE]
+  have hr2 : (retarget s be2 kkt2).refineOn = false := hr
+  rw [hr2, hr, hw0, hi0]
+  -- name the two factorised KKT objects
+  generalize ((realOps (Solver.env cs sqrtF s perm1)).factor false ((solveStart cs sqrtF s perm1).1, (solveStart cs sqrtF s perm1).2.1)).1.2 = k1 at F1' S' C1 ⊢
+  generalize ((realOps (withBackend (Solver.env cs sqrtF s perm1) be2 (execInner sqrtF be2 perm2))).factor false
+      ((solveStart cs sqrtF s perm1).1, (solveStart cs sqrtF (retarget s be2 kkt2) perm2).2.1)).1.2 = k2 at F2' S' C2 ⊢
+  have hip : initialPoint cs (retarget s be2 kkt2) (withBackend (Solver.env cs sqrtF s perm1) be2 (execInner sqrtF be2 perm2))
+      (solveStart cs sqrtF s perm1).1 k2 (solveStart cs sqrtF s perm1).2.2 false =
+      { initialPoint cs s (Solver.env cs sqrtF s perm1) (solveStart cs sqrtF s perm1).1 k1 (solveStart cs sqrtF s perm1).2.2 false with kkt := k2 } := by
+    unfold initialPoint
+    simp only [ipBeforeShift_agree cs sqrtF s be2 kkt2 perm1 perm2 (solveStart cs sqrtF s perm1).1 k1 k2 hP F1' F2' S']
+    rfl
+  have hcone := C08.initialPoint_in_cone cs s (Solver.env cs sqrtF s perm1) (solveStart cs sqrtF s perm1).1 k1
+      (solveStart cs sqrtF s perm1).2.2 false hnl hnu h15 h05 (hguard _ _ _)
+  have hpos : 0 < (initialPoint cs s (Solver.env cs sqrtF s perm1) (solveStart cs sqrtF s perm1).1 k1 (solveStart cs sqrtF s perm1).2.2 false).info.rho ∧
+      0 < (initialPoint cs s (Solver.env cs sqrtF s perm1) (solveStart cs sqrtF s perm1).1 k1 (solveStart cs sqrtF s perm1).2.2 false).info.delta ∧
+      0 < (initialPoint cs s (Solver.env cs sqrtF s perm1) (solveStart cs sqrtF s perm1).1 k1 (solveStart cs sqrtF s perm1).2.2 false).info.regLimit := by
+    unfold initialPoint; simp only
+    refine ⟨?_, ?_, ?_⟩
+    · split <;> exact hρ0
+    · split <;> exact hδ0
+    · split <;> exact hrl
+  have T := trajectories_agree (Solver.env cs sqrtF s perm1) be2 (execInner sqrtF be2 perm2) g1 g2 hP' hτ0 hτ1 heps hft
+    (initialPoint cs s (Solver.env cs sqrtF s perm1) (solveStart cs sqrtF s perm1).1 k1 (solveStart cs sqrtF s perm1).2.2 false) k2 rfl
+    (by rw [C04.initialPoint_kkt]; exact S')
+    ⟨hcone, by rw [C04.initialPoint_kkt]; exact C1, hpos.1, hpos.2.1, hpos.2.2⟩
+    ⟨hcone, C2, hpos.1, hpos.2.1, hpos.2.2⟩
+  rw [hip]
+  refine ⟨T.1, ?_, T.2.2.1⟩
+  rw [T.2.1]
+  rfl
+
 /-- **C10 at the level of `solve()`: the answer does not depend on the back end, the formulation or the ordering.** Take a solver
     object with any covered back end (`BackendOk`: dense with an exact square root, or one of the four sparse formulations with a
     fill-reducing permutation; `kktInitState = false`, refinement off, valid settings, scaled `P ⪰ 0`, caches in agreement with
@@ -1012,55 +1127,124 @@ theorem solve_backend_independent (cs : Consts K) (sqrtF : K → K) (s : Solver 
   have F2 := factored_after_rescale (withBackend (Solver.env cs sqrtF s perm1) be2 (execInner sqrtF be2 perm2)) g2 _ _ hst2
   have S := scalings_after_rescale (Solver.env cs sqrtF s perm1) (withBackend (Solver.env cs sqrtF s perm1) be2 (execInner sqrtF be2 perm2)) rfl s.kkt kkt2
     (solveStart cs sqrtF s perm1).1 (solveStart cs sqrtF s perm1).2.2.rho (solveStart cs sqrtF s perm1).2.2.delta false hss
-  rw [← hpair1] at hfa1 hinv1
-  rw [← hpair2] at hfa2 hinv2
-  have hfa1' : ((realOps (Solver.env cs sqrtF s perm1)).factor s.refineOn ((solveStart cs sqrtF s perm1).1, (solveStart cs sqrtF s perm1).2.1)).2 = true := by
-    rw [hr]; exact hfa1
-  have hfa2' : ((realOps (Solver.env cs sqrtF (retarget s be2 kkt2) perm2)).factor (retarget s be2 kkt2).refineOn
-      ((solveStart cs sqrtF (retarget s be2 kkt2) perm2).1, (solveStart cs sqrtF (retarget s be2 kkt2) perm2).2.1)).2 = true := by
-    rw [hE]
-    have : (retarget s be2 kkt2).refineOn = false := hr
-    rw [this, hw0]; exact hfa2
-  rw [solveTyped_of_factor cs sqrtF s perm1 hv hfa1', solveTyped_of_factor cs sqrtF (retarget s be2 kkt2) perm2 hv hfa2']
-  simp only
-  rw [hE]
-  have hr2 : (retarget s be2 kkt2).refineOn = false := hr
-  rw [hr2, hr, hw0, hi0]
-  -- name the two factorised KKT objects
-  obtain ⟨k1, hk1⟩ : ∃ k, ((realOps (Solver.env cs sqrtF s perm1)).factor false ((solveStart cs sqrtF s perm1).1, (solveStart cs sqrtF s perm1).2.1)).1.2 = k := ⟨_, rfl⟩
-  obtain ⟨k2, hk2'⟩ : ∃ k, ((realOps (withBackend (Solver.env cs sqrtF s perm1) be2 (execInner sqrtF be2 perm2))).factor false
-      ((solveStart cs sqrtF s perm1).1, (solveStart cs sqrtF (retarget s be2 kkt2) perm2).2.1)).1.2 = k := ⟨_, rfl⟩
-  have F1' : Factored s.be s.data k1 := by rw [← hk1, hpair1]; exact F1
-  have F2' : Factored be2 s.data k2 := by rw [← hk2', hpair2]; exact F2
-  have S' : SameScalings k1 k2 := by rw [← hk1, ← hk2', hpair1, hpair2]; exact S
-  have C1 : C13.CachesOk s.be s.data k1 := by rw [← hk1]; exact hinv1.2.1
-  have C2 : C13.CachesOk be2 s.data k2 := by rw [← hk2']; exact hinv2.2.1
-  rw [hk1, hk2']
-  have hip : initialPoint cs (retarget s be2 kkt2) (withBackend (Solver.env cs sqrtF s perm1) be2 (execInner sqrtF be2 perm2))
-      (solveStart cs sqrtF s perm1).1 k2 (solveStart cs sqrtF s perm1).2.2 false =
-      { initialPoint cs s (Solver.env cs sqrtF s perm1) (solveStart cs sqrtF s perm1).1 k1 (solveStart cs sqrtF s perm1).2.2 false with kkt := k2 } := by
-    unfold initialPoint
-    simp only [ipBeforeShift_agree cs sqrtF s be2 kkt2 perm1 perm2 (solveStart cs sqrtF s perm1).1 k1 k2 hP F1' F2' S']
-    rfl
-  have hcone := C08.initialPoint_in_cone cs s (Solver.env cs sqrtF s perm1) (solveStart cs sqrtF s perm1).1 k1
-      (solveStart cs sqrtF s perm1).2.2 false hnl hnu h15 h05 (hguard _ _ _)
-  obtain ⟨_, _, hr0, hd0, hl0⟩ := hinv1
-  have hpos : 0 < (initialPoint cs s (Solver.env cs sqrtF s perm1) (solveStart cs sqrtF s perm1).1 k1 (solveStart cs sqrtF s perm1).2.2 false).info.rho ∧
-      0 < (initialPoint cs s (Solver.env cs sqrtF s perm1) (solveStart cs sqrtF s perm1).1 k1 (solveStart cs sqrtF s perm1).2.2 false).info.delta ∧
-      0 < (initialPoint cs s (Solver.env cs sqrtF s perm1) (solveStart cs sqrtF s perm1).1 k1 (solveStart cs sqrtF s perm1).2.2 false).info.regLimit := by
-    unfold initialPoint; simp only
-    refine ⟨?_, ?_, ?_⟩
-    · split <;> exact hr0
-    · split <;> exact hd0
-    · split <;> exact hl0
-  have T := trajectories_agree (Solver.env cs sqrtF s perm1) be2 (execInner sqrtF be2 perm2) g1 g2 hP' hτ0 hτ1 heps hft
-    (initialPoint cs s (Solver.env cs sqrtF s perm1) (solveStart cs sqrtF s perm1).1 k1 (solveStart cs sqrtF s perm1).2.2 false) k2 rfl
-    (by rw [C04.initialPoint_kkt]; exact S')
-    ⟨hcone, by rw [C04.initialPoint_kkt]; exact C1, hpos.1, hpos.2.1, hpos.2.2⟩
-    ⟨hcone, C2, hpos.1, hpos.2.1, hpos.2.2⟩
-  rw [hip]
-  refine ⟨T.1, ?_, T.2.2.1⟩
-  rw [T.2.1]
-  rfl
+  have hk1 : ((realOps (Solver.env cs sqrtF s perm1)).factor false ((solveStart cs sqrtF s perm1).1, (solveStart cs sqrtF s perm1).2.1)).1.2 =
+      ((realOps (Solver.env cs sqrtF s perm1)).factor false ((realOps (Solver.env cs sqrtF s perm1)).rescale ((solveStart cs sqrtF s perm1).1, s.kkt) (solveStart cs sqrtF s perm1).2.2)).1.2 := by
+    rw [hpair1]
+  have hk2' : ((realOps (withBackend (Solver.env cs sqrtF s perm1) be2 (execInner sqrtF be2 perm2))).factor false
+      ((solveStart cs sqrtF s perm1).1, (solveStart cs sqrtF (retarget s be2 kkt2) perm2).2.1)).1.2 =
+      ((realOps (withBackend (Solver.env cs sqrtF s perm1) be2 (execInner sqrtF be2 perm2))).factor false
+        ((realOps (withBackend (Solver.env cs sqrtF s perm1) be2 (execInner sqrtF be2 perm2))).rescale ((solveStart cs sqrtF s perm1).1, kkt2) (solveStart cs sqrtF s perm1).2.2)).1.2 := by
+    rw [hpair2]
+  exact solve_agree_core cs sqrtF s perm1 perm2 be2 kkt2 hb1 hb2 hv hτ1 hft heps h15 h05 hP hr hnl hnu hguard
+    (by rw [hk1]; exact F1) (by rw [hk2']; exact F2) (by rw [hk1, hk2']; exact S) (by rw [hk1]; exact hinv1.2.1) (by rw [hk2']; exact hinv2.2.1)
+
+/-- a freshly initialised KKT object (`KKT::init`: unit scalings) factorises into a `Factored` one -/
+theorem factored_init (e : Env K n p m) (hg : GoodInner e) (rho delta : K) (o1 o2 o3 o4 : Vec K n) (hρ : 0 < rho) (hδ : 0 < delta) :
+    Factored e.be e.data (KKT.regFactor e.be e.st.kkt e.data (KKT.init e.be e.data rho delta o1 o2 o3 o4) false e.inner) := by
+  have hcoh := C13.init_coherent e.be e.data rho delta o1 o2 o3 o4
+  obtain ⟨f1, f2, f3, f4, f5, f6, f7, f8⟩ := init_fields e.be e.data rho delta o1 o2 o3 o4
+  generalize KKT.init e.be e.data rho delta o1 o2 o3 o4 = k at hcoh f1 f2 f3 f4 f5 f6 f7 f8 ⊢
+  refine factored_of_coherent e hg k hcoh (by rw [f1]; exact hρ) (by rw [f2]; exact hδ) ?_ ?_ ?_ ?_ ?_ ?_
+  · intro t; rw [f3]; simp only [C13.vecConst_get]; exact one_pos
+  · intro t; rw [f4]; simp only [C13.vecConst_get]; exact one_pos
+  · intro a ha; rw [f5, C13.headUpd_get]; simp only [ha, if_true]; exact one_pos
+  · intro a ha; rw [f7, C13.headUpd_get]; simp only [ha, if_true]; exact one_pos
+  · intro a ha; rw [f6, C13.headUpd_get]; simp only [ha, if_true]; exact one_pos
+  · intro a ha; rw [f8, C13.headUpd_get]; simp only [ha, if_true]; exact one_pos
+
+/-- **the first `solve()` after `setup()`** (`kktInitState = true`: each back end factorises the matrix its own `KKT::init` built,
+    with the same `ρ, δ` and unit scalings): the answer does not depend on the back end either -/
+theorem first_solve_backend_independent (cs : Consts K) (sqrtF : K → K) (s : Solver K n p m)
+    (perm1 perm2 : Vector (Fin (n + p + m)) (n + p + m)) (be2 : Backend)
+    (hb1 : BackendOk sqrtF s.be perm1) (hb2 : BackendOk sqrtF be2 perm2)
+    (hv : s.st.verify = true) (hτ1 : s.st.tau < 1) (hft : 0 < s.st.regFinetuneLowerLimit) (heps : 0 ≤ cs.machEps)
+    (h15 : 1 ≤ cs.c1_5) (h05 : 0 < cs.c0_5)
+    (hP : ∀ x : Vec K n, 0 ≤ quad s.data.Psym x) (hki : s.kktInitState = true) (hr : s.refineOn = false)
+    (rho delta : K) (o1 o2 o3 o4 : Vec K n) (hk : s.kkt = KKT.init s.be s.data rho delta o1 o2 o3 o4) (hρ : 0 < rho) (hδ : 0 < delta)
+    (hnl : s.data.lb.cnt ≤ n) (hnu : s.data.ub.cnt ≤ n)
+    (hguard : ∀ (w0 : Work K n p m) (kkt1 : KKT K n p m) (b : Bool), m + s.data.lb.cnt + s.data.ub.cnt ≠ 0 →
+      0 < (mehrotraShift cs s.data (ipBeforeShift cs s (Solver.env cs sqrtF s perm1) w0 kkt1 b)).2.2) :
+    (solveTyped cs sqrtF (retarget s be2 (KKT.init be2 s.data rho delta o1 o2 o3 o4)) perm2).2 = (solveTyped cs sqrtF s perm1).2 ∧
+    (solveTyped cs sqrtF (retarget s be2 (KKT.init be2 s.data rho delta o1 o2 o3 o4)) perm2).1.w = (solveTyped cs sqrtF s perm1).1.w ∧
+    (solveTyped cs sqrtF (retarget s be2 (KKT.init be2 s.data rho delta o1 o2 o3 o4)) perm2).1.info = (solveTyped cs sqrtF s perm1).1.info := by
+  have hP' : ∀ x : Vec K n, 0 ≤ quad (Solver.env cs sqrtF s perm1).data.Psym x := hP
+  have g1 : GoodInner (Solver.env cs sqrtF s perm1) := goodInner_of _ sqrtF perm1 hb1 rfl hP'
+  have g2 : GoodInner (withBackend (Solver.env cs sqrtF s perm1) be2 (execInner sqrtF be2 perm2)) := goodInner_of _ sqrtF perm2 hb2 rfl hP'
+  have hk1 : (solveStart cs sqrtF s perm1).2.1 = KKT.init s.be s.data rho delta o1 o2 o3 o4 := by
+    rw [← hk]; simp only [solveStart, hki, Bool.not_true, Bool.false_eq_true, if_false]
+  have hk2 : (solveStart cs sqrtF (retarget s be2 (KKT.init be2 s.data rho delta o1 o2 o3 o4)) perm2).2.1 = KKT.init be2 s.data rho delta o1 o2 o3 o4 := by
+    simp only [solveStart, retarget, hki, Bool.not_true, Bool.false_eq_true, if_false]
+  have F1 := factored_init (Solver.env cs sqrtF s perm1) g1 rho delta o1 o2 o3 o4 hρ hδ
+  have F2 := factored_init (withBackend (Solver.env cs sqrtF s perm1) be2 (execInner sqrtF be2 perm2)) g2 rho delta o1 o2 o3 o4 hρ hδ
+  have S : SameScalings (KKT.init s.be s.data rho delta o1 o2 o3 o4) (KKT.init be2 s.data rho delta o1 o2 o3 o4) := by
+    obtain ⟨a1, a2, a3, a4, a5, a6, a7, a8⟩ := init_fields s.be s.data rho delta o1 o2 o3 o4
+    obtain ⟨b1, b2, b3, b4, b5, b6, b7, b8⟩ := init_fields be2 s.data rho delta o1 o2 o3 o4
+    exact ⟨by rw [a1, b1], by rw [a2, b2], by rw [a3, b3], by rw [a4, b4], by rw [a5, b5], by rw [a7, b7], by rw [a6, b6], by rw [a8, b8]⟩
+  refine solve_agree_core cs sqrtF s perm1 perm2 be2 _ hb1 hb2 hv hτ1 hft heps h15 h05 hP hr hnl hnu hguard ?_ ?_ ?_ ?_ ?_
+  · rw [hk1]; exact F1
+  · rw [hk2]; exact F2
+  · rw [hk1, hk2]; exact ⟨S.rho, S.delta, S.s, S.zinv, S.s_lb, S.zinv_lb, S.s_ub, S.zinv_ub⟩
+  · rw [hk1]; exact C04.regFactor_cachesOk _ _ _ _ _ _ (C13.init_cachesOk _ _ _ _ _ _ _ _)
+  · rw [hk2]; exact C04.regFactor_cachesOk _ _ _ _ _ _ (C13.init_cachesOk _ _ _ _ _ _ _ _)
 end solveLevel
+
+/-! ## ... from `setup()` on -/
+section endToEnd
+variable {K : Type} [Field K] [LinearOrder K] [IsStrictOrderedRing K] [Inhabited K]
+variable {n p m : Nat}
+
+theorem setupTyped_retarget (cs : Consts K) (sqrtF : K → K) (poison : K) (hn : 0 < n)
+    (be1 be2 : Backend) (pk : PrecKind) (st : Settings K) (prevInfo : Info K)
+    (P : Mat K n n) (c : Vec K n) (AT : Mat K n p) (b : Vec K p) (GT : Mat K n m) (h : Option (Vec K m)) (xlb xub : Option (Vec K n)) :
+    setupTyped cs sqrtF poison hn be2 pk st prevInfo P c AT b GT h xlb xub =
+      retarget (setupTyped cs sqrtF poison hn be1 pk st prevInfo P c AT b GT h xlb xub) be2
+        (KKT.init be2 (setupTyped cs sqrtF poison hn be1 pk st prevInfo P c AT b GT h xlb xub).data st.rhoInit st.deltaInit
+          (Vec.const n 1) (Vec.const n 1) (Vec.const n 1) (Vec.const n 1)) := by
+  unfold retarget setupTyped
+  simp only
+
+/-- **C10 end to end: `setup()` then `solve()` with any two back ends.** The same convex problem (`P`'s stored upper triangle,
+    symmetrised, is positive semidefinite), the same settings (valid, `τ < 1`, refinement not forced) and a Ruiz preconditioner,
+    handed to any two of {dense, full, eq-eliminated, ineq-eliminated, all-eliminated} with any orderings: in exact arithmetic
+    `solve()` returns the same status, the same results and the same `info`. -/
+theorem setup_solve_backend_independent (cs : Consts K) (sqrtF : K → K) (poison : K) (hg : C15.PosConsts cs sqrtF) (hn : 0 < n)
+    (be1 be2 : Backend) (pk : PrecKind) (hpk : pk ≠ .identity) (st : Settings K) (prevInfo : Info K)
+    (P : Mat K n n) (c : Vec K n) (AT : Mat K n p) (b : Vec K p) (GT : Mat K n m) (h : Option (Vec K m)) (xlb xub : Option (Vec K n))
+    (perm1 perm2 : Vector (Fin (n + p + m)) (n + p + m)) (hb1 : BackendOk sqrtF be1 perm1) (hb2 : BackendOk sqrtF be2 perm2)
+    (hv : st.verify = true) (hτ1 : st.tau < 1) (hft : 0 < st.regFinetuneLowerLimit) (hra : st.refAlways = false)
+    (heps : 0 ≤ cs.machEps) (h15 : 1 ≤ cs.c1_5) (h05 : 0 < cs.c0_5)
+    (hP : ∀ x : Vec K n, 0 ≤ quad (setupRaw cs poison hn P c AT b GT h xlb xub).Psym x)
+    (hguard : ∀ (w0 : Work K n p m) (kkt1 : KKT K n p m) (bb : Bool),
+      m + (setupTyped cs sqrtF poison hn be1 pk st prevInfo P c AT b GT h xlb xub).data.lb.cnt +
+          (setupTyped cs sqrtF poison hn be1 pk st prevInfo P c AT b GT h xlb xub).data.ub.cnt ≠ 0 →
+      0 < (mehrotraShift cs (setupTyped cs sqrtF poison hn be1 pk st prevInfo P c AT b GT h xlb xub).data
+        (ipBeforeShift cs (setupTyped cs sqrtF poison hn be1 pk st prevInfo P c AT b GT h xlb xub)
+          (Solver.env cs sqrtF (setupTyped cs sqrtF poison hn be1 pk st prevInfo P c AT b GT h xlb xub) perm1) w0 kkt1 bb)).2.2) :
+    (solveTyped cs sqrtF (setupTyped cs sqrtF poison hn be2 pk st prevInfo P c AT b GT h xlb xub) perm2).2 =
+      (solveTyped cs sqrtF (setupTyped cs sqrtF poison hn be1 pk st prevInfo P c AT b GT h xlb xub) perm1).2 ∧
+    (solveTyped cs sqrtF (setupTyped cs sqrtF poison hn be2 pk st prevInfo P c AT b GT h xlb xub) perm2).1.w =
+      (solveTyped cs sqrtF (setupTyped cs sqrtF poison hn be1 pk st prevInfo P c AT b GT h xlb xub) perm1).1.w ∧
+    (solveTyped cs sqrtF (setupTyped cs sqrtF poison hn be2 pk st prevInfo P c AT b GT h xlb xub) perm2).1.info =
+      (solveTyped cs sqrtF (setupTyped cs sqrtF poison hn be1 pk st prevInfo P c AT b GT h xlb xub) perm1).1.info := by
+  have hgood := C04.setup_good cs sqrtF poison hg.good hn be1 pk hpk st prevInfo P c AT b GT h xlb xub
+  have hshape := C04.setup_shape cs sqrtF poison hg hn be1 pk hpk st prevInfo P c AT b GT h xlb xub
+  obtain ⟨hρ0, hδ0, _, _⟩ := verify_facts st hv
+  rw [setupTyped_retarget cs sqrtF poison hn be1 be2 pk st prevInfo P c AT b GT h xlb xub]
+  have hkis : (setupTyped cs sqrtF poison hn be1 pk st prevInfo P c AT b GT h xlb xub).kktInitState = true := rfl
+  have hrs : (setupTyped cs sqrtF poison hn be1 pk st prevInfo P c AT b GT h xlb xub).refineOn = false := hra
+  have hks : (setupTyped cs sqrtF poison hn be1 pk st prevInfo P c AT b GT h xlb xub).kkt =
+      KKT.init (setupTyped cs sqrtF poison hn be1 pk st prevInfo P c AT b GT h xlb xub).be
+        (setupTyped cs sqrtF poison hn be1 pk st prevInfo P c AT b GT h xlb xub).data st.rhoInit st.deltaInit
+        (Vec.const n 1) (Vec.const n 1) (Vec.const n 1) (Vec.const n 1) := rfl
+  have hPs := psd_of_scaled hgood.scaled.toApplied hshape.pos.c hP
+  have hst : (setupTyped cs sqrtF poison hn be1 pk st prevInfo P c AT b GT h xlb xub).st = st := rfl
+  have hbe : (setupTyped cs sqrtF poison hn be1 pk st prevInfo P c AT b GT h xlb xub).be = be1 := rfl
+  have hnl := hshape.lb.1
+  have hnu := hshape.ub.1
+  generalize setupTyped cs sqrtF poison hn be1 pk st prevInfo P c AT b GT h xlb xub = s at hkis hrs hks hPs hst hbe hnl hnu hguard ⊢
+  rw [← hbe] at hb1
+  rw [← hst] at hv hτ1 hft
+  exact first_solve_backend_independent cs sqrtF s perm1 perm2 be2 hb1 hb2 hv hτ1 hft heps h15 h05
+    hPs hkis hrs st.rhoInit st.deltaInit _ _ _ _ hks hρ0 hδ0 hnl hnu hguard
+end endToEnd
 end Piqp.C10
